@@ -501,7 +501,7 @@ def quick_exhaustive():
 
 
 def thorough_exhaustive():
-    return [("2x1+reentrant-after-write", C_2x1_RA), ("2x(1,2)-big+reentrant-mid-packet", C_2x12_R)]
+    return [("2x1+reentrant-after-write", C_2x1_RA)]
 
 
 def quick_stateful():
@@ -697,7 +697,7 @@ def correspondence(ctx):
     thorough = ctx.tier == "thorough"
     exhaustive_done, stateful_done, bounded = {}, {}, {}
     for name, conf in quick_exhaustive() + (thorough_exhaustive() if thorough else []):
-        n, complete = explore_dfs(batch, "exhaustive:" + name, conf, deadline=t0 + ctx.budget(40, 200))
+        n, complete = explore_dfs(batch, "exhaustive:" + name, conf, deadline=t0 + ctx.budget(40, 120))
         exhaustive_done[name] = dict(schedules=n, complete=complete)
     ctx.log("path-exhaustive families: %s (%.1fs)" % (exhaustive_done, time.time() - t0))
     for name, conf in quick_stateful() + (thorough_stateful() if thorough else []):
@@ -722,7 +722,7 @@ def correspondence(ctx):
         finally:
             run.close()
         done_rand += 1
-        if time.time() - t0 > ctx.budget(72, 780):
+        if time.time() - t0 > ctx.budget(72, 740):
             break
     batch.flush()
     ctx.log("random schedules: %d (%.1fs)" % (done_rand, time.time() - t_rand))
